@@ -184,6 +184,15 @@ Theorem C16_observing_does_not_change_the_objects :
 Proof. exact observing_keeps_state. Qed.
 Print Assumptions C16_observing_does_not_change_the_objects.
 
+(* Round 6: a dictionary the caller keeps ([SSave]), restoring it later ([SRestoreSaved]) and editing the objects the
+   caller owns - the returned dictionary, a restored schema ([SScribble]) - leave the live objects as they are: the
+   saved dictionary is a value (the correspondence compares its later restoration with the schema AS SAVED). *)
+Theorem C16_saved_and_restored_objects_are_independent :
+  forall st : sstate,
+  step st SSave = Some st /\ (forall orest, step st (SRestoreSaved orest) = Some st) /\ step st SScribble = Some st.
+Proof. intros st. destruct (saving_keeps_state st) as [H1 H2]. destruct (observing_keeps_state st) as [_ [_ H3]]. repeat split; assumption. Qed.
+Print Assumptions C16_saved_and_restored_objects_are_independent.
+
 (* ... assigning an attribute of one object shows at every position of the columns list that refers to that object
    (a column listed twice), and at no other ... *)
 Theorem C16_assignment_shows_wherever_the_object_is_listed :
